@@ -766,7 +766,12 @@ pub fn disk_fault(rng: &mut Rng, kind: &str, name: &mut String, bytes: &mut Vec<
             const FIELDS: [(usize, usize, &str); 9] =
                 [(96, 2, "tinfo1"), (98, 2, "tinfo2"), (100, 2, "tinfo3"), (102, 2, "tinfo4"), (94, 1, "datatype"), (95, 1, "filetype"), (104, 1, "comments"), (105, 1, "flags"), (90, 4, "filesize")];
             let (off, w, fname) = if rng.chance(1, 2) { FIELDS[rng.usize(2)] } else { *rng.pick(&FIELDS) };
-            let v: u32 = if rng.chance(1, 5) { 0 } else { *rng.pick(&[0u32, 1, 2, 80, 255, 256, 1000, 1001, 0x7fff, 0x8000, 0xffff, 0xffff_ffff]) };
+            let mut v: u32 = if rng.chance(1, 5) { 0 } else { *rng.pick(&[0u32, 1, 2, 80, 255, 256, 1000, 1001, 0x7fff, 0x8000, 0xffff, 0xffff_ffff]) };
+            if fname == "tinfo2" && v & 0xffff > 1000 && std::env::var("VERIF_NO_QUARANTINE").is_err() {
+                // quarantined (known finding, DESIGN 10.9): a declared height above 1000 rows makes the whole
+                // declared document the "screen" of erase, scroll and index functions
+                v = 1000;
+            }
             for i in 0..w {
                 bytes[base + off + i] = (v >> (8 * i)) as u8;
             }
